@@ -32,8 +32,8 @@ META = {
             "room, NULL arguments, NULL receiver, non-coroutine methods, pure getters; for image decoders every order of "
             "decode_image_config / decode_frame_config / decode_frame / tell_me_more / restart_frame with 1 and 2 frames and the "
             "metadata side track). Exhaustive on the generated test object and on one std object of every kind (rotating with the "
-            "seed), a seeded sample of the same histories on the other std objects in the quick tier, all of them in the thorough "
-            "tier; random deeper histories (TLC -simulate) in the thorough tier.",
+            "seed), a seeded sample of the same histories on the other std objects (5% quick, 15% thorough); random deeper "
+            "histories (TLC -simulate, depth 8) in the thorough tier.",
     "note": "Trusted: TLC, gcc (+ASan/UBSan), the driver's hashing and its realisation of abstract actions (protodrive.c header). The "
             "model is nondeterministic where documents and property are silent (how many bytes a call needs; what follows an error of "
             "a non-coroutine method: state Limbo; tell_me_more out of sequence may answer '#bad call sequence' or '#no more "
@@ -382,8 +382,13 @@ def run(ctx):
     for allexp, tag in ((exports, "all"), (sim, "sim")):
         for (cfg, sc, d), hs in sorted(allexp.items()):
             for t in by_cfg.get(cfg, []):
-                full = thorough or t == primary[cfg] or t[1] == "twocoro" or bool(os.environ.get("C08_FULL"))
-                sel = hs if full else rng.sample(hs, min(len(hs), max(200, len(hs) // 20)))
+                full = t == primary[cfg] or t[1] == "twocoro" or bool(os.environ.get("C08_FULL"))
+                if full:
+                    sel = hs
+                elif thorough:
+                    sel = rng.sample(hs, min(len(hs), max(1000, len(hs) * 15 // 100)))
+                else:
+                    sel = rng.sample(hs, min(len(hs), max(200, len(hs) // 20)))
                 js, m, jid = make_jobs(ctx, t, sel, paths, jid, rng)
                 (jobs_two if t[1] == "twocoro" else jobs_std).extend(js)
                 meta.update(m)
@@ -472,7 +477,7 @@ def run(ctx):
     }, assumptions=[
         "one valid input (and one damaged copy) per object; the abstract outcome 'error' is realised by a damaged first bytes / a closed truncated source",
         "histories deeper than the enumerated depth are only sampled (thorough tier)",
-        "quick tier: exhaustive on the generated test object and one std object per kind (rotating with the seed), a seeded sample on the others",
+        "exhaustive on the generated test object and one std object per kind (rotating with the seed), a seeded sample on the others",
         "an error of a non-coroutine method puts the model into Limbo (any reply of an initialised object accepted) until the next initialize",
     ])
 
